@@ -147,7 +147,10 @@ func (P *Program) addContracts(cf *ContractFile, pkgPath string) error {
 		f.Pkg = pkgPath
 		P.Contracts[key] = f
 	}
-	P.Layouts = append(P.Layouts, cf.Layouts...)
+	for _, lc := range cf.Layouts {
+		lc.Pkg = pkgPath
+		P.Layouts = append(P.Layouts, lc)
+	}
 	return nil
 }
 
